@@ -45,8 +45,6 @@ def enumerate_cases(tier):
         for func in FUNCS:
             for req in REQ_DTYPES:
                 for fill in FILLS:
-                    if func in ("argmax", "nanargmax", "argmin", "nanargmin") and fill == "nan":
-                        continue  # arg-reductions get integer fills only
                     yield {"dt": dt, "func": func, "dtype": req, "fill": fill, "data": None}
                     if fill is None and req in (None, "<f4"):
                         # same cell on a layout where one block's labels are all missing (legal: they belong to no group)
@@ -57,7 +55,7 @@ def enumerate_cases(tier):
 
 
 def exhaustive_note(tier):
-    return "the full cell table: 11 input dtypes x 30 reductions x 4 dtype= x 3 fills (minus NaN fills for arg-reductions) + 2 datetime dtypes x 10 reductions, each on >= 9 plans"
+    return "the full cell table: 11 input dtypes x 30 reductions x 4 dtype= x 3 fills + 2 datetime dtypes x 10 reductions, each on >= 9 plans"
 
 
 @st.composite
@@ -65,8 +63,6 @@ def cases(draw, tier="quick"):
     dt = draw(st.sampled_from(DTYPES))
     func = draw(st.sampled_from(FUNCS))
     fill = draw(st.sampled_from(FILLS))
-    if "arg" in func and fill == "nan":
-        fill = 7
     n = draw(st.integers(2, 10))
     labels = draw(st.lists(st.integers(0, 2), min_size=n, max_size=n))
     if draw(st.booleans()):
